@@ -90,7 +90,8 @@ def first_diag_line(diag: str) -> str:
 
 def differential(script: str, *, tapes=None, passes=3, hazards=False, trace_types=False, timing=True,
                  tol_pins=frozenset(), no_dedupe_pins=frozenset(), keep=("SER", "LVL", "SERVO", "PASS"),
-                 workdir: Path | None = None, ignore_pass=False, time_slack_ms=0.0, want_fw_events=False) -> dict:
+                 workdir: Path | None = None, ignore_pass=False, time_slack_ms=0.0, want_fw_events=False,
+                 start_marker: str | None = None) -> dict:
     """Run one script on both sides and compare. outcome in:
     rejected | internal | transpile-timeout | py-undefined | py-budget | uncompilable | fw-hang | fw-crash |
     inconclusive | equal | diverged"""
@@ -150,9 +151,17 @@ def differential(script: str, *, tapes=None, passes=3, hazards=False, trace_type
         res["fw_nevents"] = nevents
         steps = next((e[2] for e in reversed(f["events"]) if e[1] == "END"), ["0", "0"])
         res["fw_blocks"] = int(steps[1]) if len(steps) > 1 else 0
-        fm = trace.dedupe_levels(trace.fw_model(f["events"], keep=keep), no_dedupe_pins=no_dedupe_pins)
-        pm = trace.dedupe_levels(trace.py_model(py["events"], keep=keep, final_ms=py.get("final_ms")),
-                                 no_dedupe_pins=no_dedupe_pins)
+        fm = trace.fw_model(f["events"], keep=keep)
+        pm = trace.py_model(py["events"], keep=keep, final_ms=py.get("final_ms"))
+        if start_marker is not None:
+            # device configuration is hoisted to the top of setup(); compare from the marker printed after the declarations
+            fm = trace.after_marker(fm, start_marker)
+            pm = trace.after_marker(pm, start_marker)
+            if fm is None or pm is None:
+                res.update(outcome="inconclusive", why="start marker not found in a trace")
+                return res
+        fm = trace.dedupe_levels(fm, no_dedupe_pins=no_dedupe_pins)
+        pm = trace.dedupe_levels(pm, no_dedupe_pins=no_dedupe_pins)
         if not py.get("has_main_loop"):
             fm = [e for e in fm if e["k"] != "PASS"]
         res["fingerprint"] = trace_fingerprint(fm)
